@@ -66,6 +66,9 @@ CHECK_STRINGS = [
     'project_id:%(' + 'very_long_target_attribute_name_' * 4 + ')s',
     '(' * 30 + 'role:deep' + ')' * 30 + ' and not ' + 'role:x' + ' ' * 90 +
     'or role:y',
+    # blanks of the rule language other than the space; runs of blanks and
+    # blanks at the ends (they are part of the check STRING the sample states)
+    'role:a\tor role:b', '  role:a  and   role:b ', ' ',
 ]
 
 
